@@ -26,6 +26,7 @@ type csCase struct {
 	Who     string `json:"who"`  // client | server
 	Path    string `json:"path"`
 	Peer    string `json:"peer"`    // remote address of the accepted connection
+	Peer2   string `json:"peer2"`   // real-obfs4-*: the peer of the genuine first connection
 	Local   string `json:"local"`   // its local address
 	Target  string `json:"target"`  // SOCKS target (client)
 	ErrIP   string `json:"errip"`   // address inside dial / relay errors
@@ -51,6 +52,17 @@ var csPaths = []csPath{
 	{"server", "wrap-plain", "handshake failed", []string{"peer"}},
 	{"server", "relay-eof", "closed connection", []string{"peer"}},
 	{"server", "relay-operr", "closed connection:", []string{"peer"}},
+	// the real transports: client factories with a really dialled (loopback, refused) target …
+	{"client", "real-obfs2-dial", "outgoing connection failed", []string{"target"}},
+	{"client", "real-obfs3-dial", "outgoing connection failed", []string{"target"}},
+	{"client", "real-scramblesuit-dial", "outgoing connection failed", []string{"target"}},
+	{"client", "real-obfs4-dial", "outgoing connection failed", []string{"target"}},
+	{"client", "real-meek_lite-dial", "closed connection", []string{"target"}},
+	// … and the real obfs4 server: garbage, a truncated genuine handshake, a genuine handshake
+	// (accepted, relayed) followed by its byte-identical replay from another peer
+	{"server", "real-obfs4-garbage", "handshake failed", []string{"peer"}},
+	{"server", "real-obfs4-truncated", "handshake failed", []string{"peer", "peer2"}},
+	{"server", "real-obfs4-replay", "handshake failed", []string{"peer", "peer2"}},
 }
 
 func hostOf(hostport string) string {
@@ -62,7 +74,7 @@ func hostOf(hostport string) string {
 }
 
 func (c csCase) needles() map[string]string {
-	return map[string]string{"peer": hostOf(c.Peer), "local": hostOf(c.Local), "target": hostOf(c.Target),
+	return map[string]string{"peer": hostOf(c.Peer), "peer2": hostOf(c.Peer2), "local": hostOf(c.Local), "target": hostOf(c.Target),
 		"errip": c.ErrIP, "errhost": c.ErrHost, "dns": hostOf(c.DNS)}
 }
 
@@ -140,8 +152,8 @@ func csCheck(r *vlib.Run, h *csHook, c csCase) {
 		return
 	}
 	tc := tcase{Kind: "callsite", CS: &c}
-	line := fmt.Sprintf("log.run %s %s %s peer=%s local=%s target=%s errip=%s errhost=%s dns=%s",
-		c.Mode, c.Who, c.Path, c.Peer, c.Local, c.Target, c.ErrIP, c.ErrHost, c.DNS)
+	line := fmt.Sprintf("log.run %s %s %s peer=%s peer2=%s local=%s target=%s errip=%s errhost=%s dns=%s",
+		c.Mode, c.Who, c.Path, c.Peer, c.Peer2, c.Local, c.Target, c.ErrIP, c.ErrHost, c.DNS)
 	rep := h.call(line)
 	r.Case(line, c.Mode == "safe" && len(p.expect) > 0)
 	r.Validated(1)
@@ -162,7 +174,7 @@ func csCheck(r *vlib.Run, h *csHook, c csCase) {
 	if c.Mode == "safe" {
 		// property: with scrubbing enabled the logged text never contains the IP address, host
 		// name or DNS server involved
-		for _, k := range []string{"peer", "local", "target", "errip", "errhost", "dns"} {
+		for _, k := range []string{"peer", "peer2", "local", "target", "errip", "errhost", "dns"} {
 			if nd[k] != "" && strings.Contains(text, nd[k]) {
 				bad := ""
 				for _, l := range strings.Split(text, "\n") {
@@ -194,6 +206,11 @@ func csAddresses(rng *vlib.Rng) csCase {
 		c.Peer = fmt.Sprintf("[2001:db8::%x]:%d", rng.Range(0x10, 0xfffe), rng.Range(1025, 65000))
 	} else {
 		c.Peer = fmt.Sprintf("203.0.113.%d:%d", x(), rng.Range(1025, 65000))
+	}
+	if rng.Intn(3) == 0 {
+		c.Peer2 = fmt.Sprintf("203.0.113.%d:%d", x(), rng.Range(1025, 65000))
+	} else {
+		c.Peer2 = fmt.Sprintf("[2001:db8:3::%x]:%d", rng.Range(0x10, 0xfffe), rng.Range(1025, 65000))
 	}
 	c.Local = fmt.Sprintf("198.51.100.%d:%d", x(), rng.Range(1025, 65000))
 	switch rng.Intn(3) {
@@ -246,10 +263,16 @@ func callSites(r *vlib.Run, replay *csCase) {
 	rng := vlib.NewRng(r.Seed ^ 0xc20ca115)
 	for i, n := 0, r.Scale(8, 60); i < n; i++ {
 		a := csAddresses(rng)
+		real := fmt.Sprintf("127.%d.%d.%d:%d", rng.Range(2, 250), rng.Range(2, 250), rng.Range(2, 250), rng.Range(40000, 60000))
 		for _, p := range csPaths {
 			for _, mode := range []string{"safe", "unsafe"} {
 				c := a
 				c.Mode, c.Who, c.Path = mode, p.who, p.path
+				if p.who == "client" && strings.HasPrefix(p.path, "real-") {
+					// this target is really dialled: a loopback address nobody listens on
+					// (refused at once, whatever the network of the machine)
+					c.Target = real
+				}
 				csCheck(r, h, c)
 			}
 		}
